@@ -41,12 +41,12 @@ prop("C05", [H("K9_copystored"), H("H05_merge", common={"param": "maxDocs=1,tieR
              H("H05_merge", quick={"skip": True}, thorough={"wall": "1500s", "shards": 16, "param": "maxDocs=1,tieReopen=1,maxOcc=1,nInputs=3"}),
              # multi-valued stored fields (up to 3 occurrences with array positions), every field present and stored
              H("H05_merge", common={"param": "maxDocs=1,tieReopen=1,maxOcc=3,storeAll=1,always=1,fixAP=1,symTyp=0"}, quick={"wall": "140s", "shards": 4}, thorough={"wall": "1500s", "shards": 16, "param": "maxDocs=2,tieReopen=1,maxOcc=3,storeAll=1,always=1,fixAP=1,symTyp=0"})])
-prop("C06", KERNELS_CODEC[2:] + [H("H06_large", quick={"wall": "140s", "shards": 8}, thorough={"wall": "1500s", "shards": 16, "param": "nLarge=2100"}), H("H06_locids"), H("H06_enum", quick={"wall": "140s", "shards": 4}), H("H06_merge", quick={"wall": "140s", "shards": 16, "param": "maxDocs=1,tieReopen=1,lite=1"}, thorough={"wall": "1500s", "shards": 16, "param": "maxDocs=2,tieReopen=0,gen2=1"})])
+prop("C06", KERNELS_CODEC[2:] + [H("H06_large", quick={"wall": "140s", "shards": 8, "shard-depth": 3, "param": "nBlocks=3,nProbes=2"}, thorough={"wall": "1500s", "shards": 16, "shard-depth": 3, "param": "nLarge=2100"}), H("H06_locids"), H("H06_enum", quick={"wall": "140s", "shards": 4}), H("H06_merge", quick={"wall": "140s", "shards": 16, "param": "maxDocs=1,tieReopen=1,lite=1"}, thorough={"wall": "1500s", "shards": 16, "param": "maxDocs=2,tieReopen=0,gen2=1"})])
 PLAN["C06"]["harnesses"].append(H("H06_merge", quick={"skip": True}, thorough={"wall": "1500s", "shards": 16, "param": "maxDocs=1,tieReopen=1,lite=1,nInputs=3"}))
 prop("C07", [
     H("K2_uvarint_rt"), H("K2_uvarint_agree"),
     # A: small lists, every variant (built / merged single-hit / reused objects / replaced actual bitmap), every flag combination
-    H("H07_seq", quick={"wall": "140s", "shards": 8, "param": "maxN=2,maxL=1,maxLocs=0,variants=4"}, thorough={"wall": "1500s", "shards": 16, "param": "maxN=3,maxL=2,maxLocs=1,variants=4"}),
+    H("H07_seq", quick={"wall": "140s", "shards": 8, "param": "maxN=2,maxL=1,maxLocs=0,variants=5"}, thorough={"wall": "1500s", "shards": 16, "param": "maxN=3,maxL=2,maxLocs=1,variants=5"}),
     # B: small lists with locations, all details, two calls
     H("H07_seq", quick={"wall": "140s", "shards": 3, "param": "maxN=2,maxL=2,maxLocs=1,variants=1,allFlags=1"}, thorough={"wall": "1500s", "shards": 16, "param": "maxN=4,maxL=3,maxLocs=1,variants=1,allFlags=1"}),
     # C: longer lists (more chunks), no exclusion, all details: every postings set
